@@ -85,8 +85,12 @@ CnnMethods     == {"add_layer", "remove_layer", "change_kernel", "add_channel", 
 CnnNodeMethods == {"change_kernel", "add_channel", "remove_channel"}
 \* feature-map size after layer i (0 = the image): out = (in - k) div s + 1, no padding
 CnnOuts(c, a) == LET f[i \in 0..Len(a.ch)] == IF i = 0 THEN c.inh ELSE (f[i - 1] - a.ks[i]) \div a.st[i] + 1 IN f
+\* images need not be square: the width of the feature maps (c.inw, the height when the record has no such field)
+InW(c) == IF "inw" \in DOMAIN c THEN c.inw ELSE c.inh
+CnnOutsW(c, a) == LET f[i \in 0..Len(a.ch)] == IF i = 0 THEN InW(c) ELSE (f[i - 1] - a.ks[i]) \div a.st[i] + 1 IN f
+CnnSmall(c, a, i) == IF CnnOuts(c, a)[i] <= CnnOutsW(c, a)[i] THEN CnnOuts(c, a)[i] ELSE CnnOutsW(c, a)[i]
 \* calc_max_kernel_sizes: int(0.25 * out_i) clipped to 1..9
-CnnMaxK(c, a, i) == LET q == CnnOuts(c, a)[i] \div 4 IN IF q <= 0 THEN 1 ELSE IF q > 9 THEN 9 ELSE q
+CnnMaxK(c, a, i) == LET q == CnnSmall(c, a, i) \div 4 IN IF q <= 0 THEN 1 ELSE IF q > 9 THEN 9 ELSE q
 \* add_channel: applies iff ch + k <= max_channel_size  (cnn.py:544)
 CnnAddChannel(c, a) ==
   { R(IF a.ch[l] + k <= c.maxc THEN [a EXCEPT !.ch[l] = @ + k] ELSE a, "add_channel", l, k, 0)
@@ -99,7 +103,7 @@ CnnRemoveChannel(c, a) ==
 \* kernel drawn from 2..maxk, stride from 1..last stride; else add_channel
 CnnAddLayer(c, a) ==
   LET L == Len(a.ch) IN
-  IF L < c.maxl /\ CnnOuts(c, a)[L] > 2 /\ CnnMaxK(c, a, L) > 2
+  IF L < c.maxl /\ CnnSmall(c, a, L) > 2 /\ CnnMaxK(c, a, L) > 2
   THEN { R([ch |-> Append(a.ch, a.ch[L]), ks |-> Append(a.ks, k), st |-> Append(a.st, s)], "add_layer", 0, k, s)
            : k \in 2..CnnMaxK(c, a, L), s \in 1..a.st[L] }
   ELSE CnnAddChannel(c, a)
@@ -127,7 +131,7 @@ CnnSucc(c, a, m) ==
 CnnOK(c, a) == /\ Len(a.ch) >= 1 /\ Len(a.ks) = Len(a.ch) /\ Len(a.st) = Len(a.ch)
                /\ \A i \in 1..Len(a.ch) : a.ch[i] >= 1 /\ a.ks[i] >= 1 /\ a.st[i] >= 1
 \* every kernel fits the feature map it is applied to, every feature map has at least one cell
-CnnFMPos(c, a) == CnnOK(c, a) /\ \A i \in 1..Len(a.ch) : a.ks[i] <= CnnOuts(c, a)[i - 1] /\ CnnOuts(c, a)[i] >= 1
+CnnFMPos(c, a) == CnnOK(c, a) /\ \A i \in 1..Len(a.ch) : a.ks[i] <= CnnSmall(c, a, i - 1) /\ CnnSmall(c, a, i) >= 1
 CnnInBounds(c, a) == /\ Len(a.ch) >= c.minl /\ Len(a.ch) <= c.maxl
                      /\ \A i \in 1..Len(a.ch) : a.ch[i] >= c.minc /\ a.ch[i] <= c.maxc
 CnnShapes(c, a, p, no) ==
@@ -135,12 +139,13 @@ CnnShapes(c, a, p, no) ==
       Cin(i) == IF i = 1 THEN c.inc ELSE a.ch[i - 1]
       K(i)   == IF c.depth = 0 THEN <<a.ks[i], a.ks[i]>> ELSE <<(IF i = 1 THEN c.depth ELSE 1), a.ks[i], a.ks[i]>>
       o      == CnnOuts(c, a)[L]
+      ow     == CnnOutsW(c, a)[L]
       cv     == p \o c.name \o "_conv_layer_"
       nrm    == p \o c.name \o "_layer_norm_"
   IN Fn( {<<cv \o Str(i) \o ".weight", <<a.ch[i], Cin(i)>> \o K(i)>> : i \in 1..L}
          \cup {<<cv \o Str(i) \o ".bias", <<a.ch[i]>>>> : i \in 1..L}
          \cup (IF c.ln THEN {<<nrm \o Str(i) \o "." \o x, <<a.ch[i]>>>> : i \in 1..L, x \in {"weight", "bias"}} ELSE {})
-         \cup {<<p \o c.name \o "_linear_output.weight", <<no, a.ch[L] * o * o>>>>,
+         \cup {<<p \o c.name \o "_linear_output.weight", <<no, a.ch[L] * o * ow>>>>,
                <<p \o c.name \o "_linear_output.bias", <<no>>>>} )
 
 (***************************************************************************************************)
@@ -379,7 +384,7 @@ Narrow(c)    == IF c.kind \in {"cnn", "resnet"} THEN "remove_channel" ELSE "remo
 WidenFits(c, w, k)  == IF c.kind = "resnet" THEN w + k < c.maxc ELSE w + k <= MaxWidth(c)
 NarrowFits(c, w, k) == IF c.kind \in {"cnn", "lstm"} THEN w - k >= MinWidth(c) ELSE w - k > MinWidth(c)
 \* room for one more CNN layer
-CnnRoom(c, a) == c.kind = "cnn" => (CnnOuts(c, a)[Len(a.ch)] > 2 /\ CnnMaxK(c, a, Len(a.ch)) > 2)
+CnnRoom(c, a) == c.kind = "cnn" => (CnnSmall(c, a, Len(a.ch)) > 2 /\ CnnMaxK(c, a, Len(a.ch)) > 2)
 WidthPos(c, l) == IF c.kind \in {"mlp", "cnn"} THEN l ELSE 1
 BlockAdvertised(c, a, m, b, applied, args) ==
   LET L == Layers(c, a)  w == Widths(c, a)  w2 == Widths(c, b)  p == WidthPos(c, args.l) IN
